@@ -103,6 +103,15 @@ def run(ctx):
     pr = C.coq_props(PROPS)
     C.coq_obligation_violations(ctx, pr, "C05")
 
+    coqchk = None
+    if ctx.tier == "thorough" and not pr["failed"]:
+        with C.Lock("coq"):
+            rc, o = C.sh(["coqchk", "-silent", "-o", "-Q", "theories", "MTV", "MTV.Props.C05"], cwd=C.COQ, timeout=1800)
+        coqchk = "coqchk -silent -o MTV.Props.C05: rc=%d; %s" % (rc, "Axioms: <none>" if "* Axioms: <none>" in o else o[-400:])
+        if rc != 0 or "* Axioms: <none>" not in o:
+            C.violation(ctx, "coqchk:Props/C05", "coqchk does not accept the compiled proofs of C05: " + o[-600:],
+                        {"no_failing_input": True, "broken_obligation": "coqchk MTV.Props.C05", "log": o[-2000:]})
+
     C.build_model("C05")
     mout = ctx.work + "/model.txt"
     C.run_model("C05", cases, mout)
@@ -153,7 +162,7 @@ def run(ctx):
                  "ciphertexts; generateAESIGE/Encrypt/Decrypt for lengths 0..80 and auth keys around the 128/136 limits; SHA-1 lengths around block boundaries. "
                  "distinct non-trivial = distinct (function, data length, buffer lengths, key/iv shape, leading-zero counts of the nonces, padding length)",
          "samples": samples, "input_distribution": stats, "disagreements": disagreements,
-         "direct_oracle_cases": direct_checked,
+         "direct_oracle_cases": direct_checked, "coqchk": coqchk or "thorough tier only",
          "projection": "result class ok/err/panic; bytes of the output buffer and of the caller's input buffer after the call (also after err/panic); "
                        "key and iv bytes; never error texts or panic values"})
     return C.finish(ctx, "proof", cov, [
